@@ -213,7 +213,7 @@ async fn run_stream(n: usize, items: &[&str]) -> String {
     let keep = if hold { Some(tx) } else { drop(tx); None };
     let res = b_h.apply_snapshot_stream_from_leader(label.term, rx, ack_tx, &cfg).await;
     drop(keep);
-    let res = match res { Ok(()) => "ok".to_string(), Err(e) => format!("err:{}", classify(&format!("{e:?}"))) };
+    let res = match res { Ok(()) => "ok".to_string(), Err(e) => { let k = classify(&format!("{e:?}")); format!("err:{}", if k == "nolast" || k == "archive" { "final" } else { k }) } };
     let mut acks = vec![];
     while let Ok(a) = ack_rx.try_recv() {
         let st = match ChunkStatus::try_from(a.status) {
